@@ -19,6 +19,7 @@ mod c05x;
 mod c10;
 mod c11;
 mod c13;
+mod c08;
 mod c09;
 mod c06;
 mod c06x;
@@ -99,6 +100,7 @@ fn main() {
         "C03" => histprops::c03(&cfg),
         "C04" => c04::run(&cfg),
         "C05" => histprops::c05(&cfg),
+        "C08" => c08::run(&cfg),
         "C09" => c09::run(&cfg),
         "C10" => c10::run(&cfg),
         "C11" => c11::run(&cfg),
